@@ -1,0 +1,274 @@
+//go:build verif
+// +build verif
+
+package encoder
+
+import (
+	"fmt"
+	"sync"
+	"sync/atomic"
+	"unsafe"
+)
+
+// ---- slot-ownership monitor -------------------------------------------------------------
+//
+// The opcode interpreters keep their working state in ctx.Ptrs, addressed as base+idx where
+// base moves up on a recursive call and back down on return. The monitor shadows that memory:
+//   R1  every access lies inside the live ctx.Ptrs allocation
+//   R2  a frame never reads a slot whose last writer is a frame pushed after it (callee
+//       clobbered caller)
+//   R3  a pop lands exactly on the base of a live frame
+// Reads of slots that were not written during the current run are counted only.
+
+var verifSlotArmed int32
+
+type vframe struct {
+	base uintptr // byte offset from the start of Ptrs
+	id   uint64
+}
+
+type vctx struct {
+	data, end  uintptr
+	frames     []vframe
+	nextID     uint64
+	lastWriter []uint64
+}
+
+// VerifSlotStats is a snapshot of what the slot monitor observed.
+type VerifSlotStats struct {
+	Access, Reads, Writes, Push, Pop, Uninit, Runs uint64
+	MaxDepth                                       uint64
+	R1, R2, R3                                     uint64
+}
+
+var (
+	vmu      sync.Mutex
+	vctxs    = map[*RuntimeContext]*vctx{}
+	vstats   VerifSlotStats
+	vreports []string
+)
+
+func VerifSlotArm(on bool) {
+	if on {
+		atomic.StoreInt32(&verifSlotArmed, 1)
+	} else {
+		atomic.StoreInt32(&verifSlotArmed, 0)
+	}
+}
+
+// VerifSlotTake returns and clears the statistics and reports gathered so far.
+func VerifSlotTake() (VerifSlotStats, []string) {
+	vmu.Lock()
+	defer vmu.Unlock()
+	s, r := vstats, vreports
+	vstats = VerifSlotStats{}
+	vreports = nil
+	return s, r
+}
+
+func vreport(s string) {
+	if len(vreports) < 16 {
+		vreports = append(vreports, s)
+	}
+}
+
+func verifInit(c *RuntimeContext) {
+	if atomic.LoadInt32(&verifSlotArmed) == 0 {
+		return
+	}
+	vmu.Lock()
+	defer vmu.Unlock()
+	v := vctxs[c]
+	if v == nil {
+		v = &vctx{}
+		vctxs[c] = v
+	}
+	vstats.Runs++
+	v.frames = append(v.frames[:0], vframe{0, 1})
+	v.nextID = 1
+	for i := range v.lastWriter {
+		v.lastWriter[i] = 0
+	}
+	verifPtrsLocked(c, v)
+}
+
+func verifPtrsLocked(c *RuntimeContext, v *vctx) {
+	h := (*[3]uintptr)(unsafe.Pointer(&c.Ptrs))
+	v.data = h[0]
+	v.end = h[0] + uintptr(len(c.Ptrs))*8
+	if len(v.lastWriter) < len(c.Ptrs) {
+		nw := make([]uint64, len(c.Ptrs))
+		copy(nw, v.lastWriter)
+		v.lastWriter = nw
+	}
+}
+
+func verifPtrs(c *RuntimeContext) {
+	if atomic.LoadInt32(&verifSlotArmed) == 0 {
+		return
+	}
+	vmu.Lock()
+	defer vmu.Unlock()
+	v := vctxs[c]
+	if v == nil {
+		v = &vctx{nextID: 1, frames: []vframe{{0, 1}}}
+		vctxs[c] = v
+	}
+	verifPtrsLocked(c, v)
+}
+
+func VerifSlot(base uintptr, idx uint32, write bool) {
+	if atomic.LoadInt32(&verifSlotArmed) == 0 {
+		return
+	}
+	vmu.Lock()
+	defer vmu.Unlock()
+	vstats.Access++
+	if write {
+		vstats.Writes++
+	} else {
+		vstats.Reads++
+	}
+	var v *vctx
+	for _, c := range vctxs {
+		if base >= c.data && base < c.end {
+			v = c
+			break
+		}
+	}
+	addr := base + uintptr(idx)
+	if v == nil || addr < v.data || addr+8 > v.end {
+		vstats.R1++
+		vreport(fmt.Sprintf("R1 slot access outside ctx.Ptrs (idx=%d write=%v known-ctx=%v)", idx, write, v != nil))
+		return
+	}
+	off := base - v.data
+	if len(v.frames) == 0 {
+		v.frames = append(v.frames, vframe{0, 1})
+		v.nextID = 1
+	}
+	top := v.frames[len(v.frames)-1]
+	if off > top.base {
+		v.nextID++
+		v.frames = append(v.frames, vframe{off, v.nextID})
+		vstats.Push++
+		if uint64(len(v.frames)) > vstats.MaxDepth {
+			vstats.MaxDepth = uint64(len(v.frames))
+		}
+		top = v.frames[len(v.frames)-1]
+	} else if off < top.base {
+		for len(v.frames) > 0 && v.frames[len(v.frames)-1].base > off {
+			v.frames = v.frames[:len(v.frames)-1]
+			vstats.Pop++
+		}
+		if len(v.frames) == 0 || v.frames[len(v.frames)-1].base != off {
+			vstats.R3++
+			vreport(fmt.Sprintf("R3 frame pop to offset %d which is not the base of a live frame", off))
+			v.nextID++
+			v.frames = append(v.frames, vframe{off, v.nextID})
+		}
+		top = v.frames[len(v.frames)-1]
+	}
+	slot := (addr - v.data) / 8
+	if write {
+		v.lastWriter[slot] = top.id
+		return
+	}
+	lw := v.lastWriter[slot]
+	if lw == 0 {
+		vstats.Uninit++
+	} else if lw > top.id {
+		vstats.R2++
+		vreport(fmt.Sprintf("R2 frame #%d (base %d) read slot %d last written by later frame #%d", top.id, top.base, slot, lw))
+	}
+}
+
+// ---- cache identity monitor -------------------------------------------------------------
+//
+// Every OpcodeSet handed out for a type must have been compiled for that type, and a slot of
+// the address-indexed cache must only ever be hit by the type that first populated it.
+
+var verifCacheArmed int32
+
+type VerifCacheStats struct {
+	Lookups, FastPath, SlowPath uint64
+	Slots                       int
+	TypeMismatch, SlotCollision uint64
+}
+
+var (
+	vcmu      sync.Mutex
+	vcOwner   = map[int]uintptr{}
+	vcStats   VerifCacheStats
+	vcReports []string
+)
+
+func VerifCacheArm(on bool) {
+	if on {
+		atomic.StoreInt32(&verifCacheArmed, 1)
+	} else {
+		atomic.StoreInt32(&verifCacheArmed, 0)
+	}
+}
+
+func VerifCacheTake() (VerifCacheStats, []string) {
+	vcmu.Lock()
+	defer vcmu.Unlock()
+	s, r := vcStats, vcReports
+	s.Slots = len(vcOwner)
+	vcStats = VerifCacheStats{}
+	vcReports = nil
+	return s, r
+}
+
+// VerifTypeAddr exposes the inferred layout of the type-descriptor region.
+func VerifTypeAddr() (base, max, shift, rng uintptr) {
+	initEncoder()
+	return typeAddr.BaseTypeAddr, typeAddr.MaxTypeAddr, typeAddr.AddrShift, typeAddr.AddrRange
+}
+
+func verifCodeSet(typeptr uintptr, set *OpcodeSet, index int) {
+	if atomic.LoadInt32(&verifCacheArmed) == 0 || set == nil {
+		return
+	}
+	vcmu.Lock()
+	defer vcmu.Unlock()
+	vcStats.Lookups++
+	if uintptr(unsafe.Pointer(set.Type)) != typeptr {
+		vcStats.TypeMismatch++
+		if len(vcReports) < 16 {
+			vcReports = append(vcReports, fmt.Sprintf("encoder program compiled for %s handed out for a different type (index %d)", set.Type.String(), index))
+		}
+	}
+	if index < 0 {
+		vcStats.SlowPath++
+		return
+	}
+	vcStats.FastPath++
+	if o, ok := vcOwner[index]; !ok {
+		vcOwner[index] = typeptr
+	} else if o != typeptr {
+		vcStats.SlotCollision++
+		if len(vcReports) < 16 {
+			vcReports = append(vcReports, fmt.Sprintf("encoder cache slot %d used by two type descriptors", index))
+		}
+	}
+}
+
+// ---- yield points -----------------------------------------------------------------------
+
+var verifYieldFn atomic.Value // func(string)
+
+// VerifSetYield installs (or with nil removes) the function called at every yield point.
+func VerifSetYield(f func(point string)) {
+	if f == nil {
+		f = func(string) {}
+	}
+	verifYieldFn.Store(f)
+}
+
+func verifYield(point string) {
+	if f, ok := verifYieldFn.Load().(func(string)); ok {
+		f(point)
+	}
+}
